@@ -214,13 +214,9 @@ Print Assumptions constrain_to_i32_conc.
 
 (* ================================================================== Part 2: soundness w.r.t. Lang/Wt.v *)
 
-(* THE FRAGMENT PROVED SO FAR (a strict subset of S1; see the report for what is missing):
-   expressions: true / false, suffixed number literals that lie in the range of their suffix type
-   (what the scanner guarantees), identifiers, `[e; n]`, unary `!` / `-`, blocks;
-   statements: `let x = e`, `let mut x = e` (no annotation), expression statements.
-   NOT yet covered (the lemmas of Part 1 and the environment / block machinery below are what
-   their cases need): binary operators, if, casts, ranges, array / tuple literals and accesses,
-   assignments, for, calls, structs / enums / match, consts. *)
+(* THE FRAGMENT: every number literal and range carries a suffix, literals lie in the range of
+   their suffix type (what the scanner guarantees); casts go to a scalar type; patterns of
+   `let` / `for` are identifiers and tuples of such. *)
 Definition lit_u_ok (n : N) (t : unsigned_num_type) : bool :=
   match unsigned_max t with Some m => n <=? m | None => false end.
 Definition lit_s_ok (z : Z) (t : signed_num_type) : bool :=
@@ -236,22 +232,83 @@ Definition scalar_uty (t : utype) : bool :=
   | _ => false
   end.
 
+Fixpoint frag_p (p : upattern) : bool :=
+  match p with
+  | PIdentifier _ => true
+  | PTuple ps => forallb frag_p ps
+  | _ => false
+  end.
+
 Fixpoint frag_e (e : xexpr) : bool :=
   match e with
   | XTrue | XFalse | XIdentifier _ => true
   | XNumUnsigned n t => lit_u_ok n t
   | XNumSigned z t => lit_s_ok z t
-  | XArrayRepeatLiteral e _ | XUnaryOp _ e => frag_e e
+  | XArrayLiteral es | XTupleLiteral es => forallb frag_e es
+  | XArrayRepeatLiteral e _ | XTupleAccess e _ | XUnaryOp _ e => frag_e e
+  | XArrayAccess a i => frag_e a && frag_e i
+  | XOp _ l r => frag_e l && frag_e r
   | XBlock b => forallb frag_s b
+  | XIf c a b => frag_e c && frag_e a && frag_e b
+  | XCast ty e => scalar_uty ty && frag_e e
+  | XRange _ _ t => negb (unsigned_eqb t UnspecifiedU)
   | _ => false
   end
 with frag_s (s : xstmt) : bool :=
   match s with
-  | XSLet (PIdentifier _) None e => frag_e e
-  | XSLetMut _ None e => frag_e e
+  | XSLet p _ e => frag_p p && frag_e e
+  | XSLetMut _ _ e => frag_e e
+  | XSVarAssign _ accs e => forallb frag_a accs && frag_e e
+  | XSForEach p e body => frag_p p && frag_e e && forallb frag_s body
   | XSExpr e => frag_e e
+  end
+with frag_a (a : xaccessor) : bool :=
+  match a with XAArray i => frag_e i | XATuple _ => true | XAStruct _ => false end.
+
+(* types written in the program: no Unspecified number type, no named / const-sized type *)
+Fixpoint conc_uty (t : utype) : bool :=
+  match t with
+  | UTBool => true
+  | UTUnsigned u => negb (unsigned_eqb u UnspecifiedU)
+  | UTSigned s => negb (signed_eqb s UnspecifiedS)
+  | UTTuple ts => forallb conc_uty ts
+  | UTArray e _ => conc_uty e
   | _ => false
   end.
+
+Lemma utype_ind' (P : utype -> Prop) :
+  P UTBool -> (forall t, P (UTUnsigned t)) -> (forall t, P (UTSigned t)) -> (forall s, P (UTNamed s)) ->
+  (forall ts, Forall P ts -> P (UTTuple ts)) -> (forall t n, P t -> P (UTArray t n)) ->
+  (forall t c, P t -> P (UTArrayConst t c)) -> (forall t c, P t -> P (UTArrayConstExpr t c)) -> forall t, P t.
+Proof.
+  intros H0 H1 H2 H3 H4 H5 H6 H7. fix IH 1. destruct t.
+  - exact H0.
+  - apply H1.
+  - apply H2.
+  - apply H3.
+  - apply H4. induction ts as [|x xs IHxs]; constructor; [apply IH | exact IHxs].
+  - apply H5. apply IH.
+  - apply H6. apply IH.
+  - apply H7. apply IH.
+Qed.
+
+Lemma as_concrete_conc sn en : forall t t', as_concrete_type sn en t = COk t' -> conc_uty t = true -> conc_ty t' = true.
+Proof.
+  induction t using utype_ind'; intros t' HH Hc; try discriminate Hc; cbn [as_concrete_type] in HH.
+  - inv_all. reflexivity.
+  - inv_all. destruct t; try discriminate Hc; reflexivity.
+  - inv_all. destruct t; try discriminate Hc; reflexivity.
+  - apply cbind_ok in HH. destruct HH as [ts' [Hts HH]]. inversion HH; subst; clear HH. cbn [conc_uty conc_ty] in *.
+    revert ts' Hts Hc. induction H as [|x xs Hx Hxs IH]; intros ts' Hts Hc.
+    + inv_all. reflexivity.
+    + apply cbind_ok in Hts. destruct Hts as [x' [Hx' Hts]]. apply cbind_ok in Hts. destruct Hts as [r' [Hr' Hts]].
+      inversion Hts; subst; clear Hts. cbn [forallb] in *. apply andb_true_iff in Hc. destruct Hc as [Hc1 Hc2].
+      rewrite (Hx _ Hx' Hc1), (IH _ Hr' Hc2). reflexivity.
+  - apply cbind_ok in HH. destruct HH as [e' [He HH]]. inversion HH; subst; clear HH. cbn [conc_uty conc_ty] in *. eauto.
+Qed.
+
+Definition frag_fn (fd : ufndef) : bool :=
+  forallb (fun p => conc_uty (upa_ty p)) (uf_params fd) && forallb frag_s (uf_body fd).
 
 Section Sound.
 Variable intern : list N -> N.
@@ -358,13 +415,184 @@ Proof.
   rewrite nthN_spec. intros H Hn. apply nth_error_In in Hn. rewrite forallb_forall in H. auto.
 Qed.
 
+
+Notation xp := (export_pattern intern en).
+
 Ltac destr_tuples := repeat match goal with x : (_ * _)%type |- _ => destruct x end.
 Ltac inv_all' := repeat (progress (inv_all; destr_tuples; cbn [fst snd] in * )).
 Ltac refold H :=
   fold (Infer.check_expr intern) (Infer.check_stmts intern) (Infer.check_block intern)
        (Infer.check_fn intern) (Infer.check_stmt intern) in H.
 
-(* the statement loop of Wt.wt_block *)
+(* ------------------------------------------------------------------ unfolding lemmas *)
+
+Lemma xe_block b t : xe (TE (TBlock b) t) = Ast.Ex (Ast.EBlock (map xs b)) m0 (xt t).
+Proof. reflexivity. Qed.
+Lemma xs_let p e : xs (TSLet p e) = Ast.St (Ast.SLet (xp p) (xe e)) m0.
+Proof. reflexivity. Qed.
+Lemma xs_letmut x e : xs (TSLetMut x e) = Ast.St (Ast.SLetMut (intern x) (xe e)) m0.
+Proof. reflexivity. Qed.
+Lemma xs_expr e : xs (TSExpr e) = Ast.St (Ast.SExpr (xe e)) m0.
+Proof. reflexivity. Qed.
+Lemma xs_assign x accs e : xs (TSVarAssign x accs e) = Ast.St (Ast.SAssign (intern x) (map xa accs) (xe e)) m0.
+Proof. reflexivity. Qed.
+Lemma xs_for p e body : xs (TSForEach p e body) = Ast.St (Ast.SFor (xp p) (xe e) (map xs body)) m0.
+Proof. reflexivity. Qed.
+Lemma xa_arr t i : xa (TAArray t i) = Ast.AIdx (xt t) (xe i).
+Proof. reflexivity. Qed.
+Lemma xa_tup t i : xa (TATuple t i) = Ast.ATup (xt t) i.
+Proof. reflexivity. Qed.
+Lemma xp_id s t : xp (TP (TPIdentifier s) t) = Ast.Pat (Ast.PId (intern s)) m0 (xt t).
+Proof. reflexivity. Qed.
+Lemma xp_tup ps t : xp (TP (TPTuple ps) t) = Ast.Pat (Ast.PTup (map xp ps)) m0 (xt t).
+Proof. reflexivity. Qed.
+
+Lemma wt_expr_block f G b t : Wt.wt_expr (S f) P' G (Ast.Ex (Ast.EBlock b) (m0) t) =
+  match Wt.wt_block f P' ([] :: G) b with Some tb => Wt.ty_eqb tb t | None => false end.
+Proof. reflexivity. Qed.
+Lemma wt_stmt_let f G p e : Wt.wt_stmt (S f) P' G (Ast.St (Ast.SLet p e) m0) =
+  if Wt.wt_expr f P' G e && Wt.ty_eqb (Ast.p_ty p) (Ast.e_ty e)
+  then match Wt.wt_pat P' p with Some bs => Some (Wt.tbind_all G bs false, Wt.unit_ty) | None => None end
+  else None.
+Proof. reflexivity. Qed.
+Lemma wt_stmt_letmut f G x e : Wt.wt_stmt (S f) P' G (Ast.St (Ast.SLetMut x e) m0) =
+  if Wt.wt_expr f P' G e then Some (Wt.tbind G x (Ast.e_ty e) true, Wt.unit_ty) else None.
+Proof. reflexivity. Qed.
+Lemma wt_stmt_expr f G e : Wt.wt_stmt (S f) P' G (Ast.St (Ast.SExpr e) m0) =
+  if Wt.wt_expr f P' G e then Some (G, Ast.e_ty e) else None.
+Proof. reflexivity. Qed.
+Lemma wt_stmt_for f G p arr body : Wt.wt_stmt (S f) P' G (Ast.St (Ast.SFor p arr body) m0) =
+  match Ast.e_ty arr with
+  | Ast.TArr el _ =>
+      if Wt.wt_expr f P' G arr && Wt.ty_eqb (Ast.p_ty p) el then
+        match Wt.wt_pat P' p with
+        | Some bs =>
+            match Wt.wt_block f P' (Wt.tbind_all ([] :: G) bs false) body with
+            | Some _ => Some (G, Wt.unit_ty)
+            | None => None
+            end
+        | None => None
+        end
+      else None
+  | _ => None
+  end.
+Proof. reflexivity. Qed.
+
+(* the accessor loop of Wt.wt_stmt (SAssign) *)
+Definition ago (f : nat) (G : Wt.tenv) :=
+  fix go (accs : list Ast.accessor) (cur : Ast.ty) : option Ast.ty :=
+    match accs with
+    | [] => Some cur
+    | Ast.AIdx aty i :: r =>
+        match cur with
+        | Ast.TArr el _ =>
+            if Wt.ty_eqb aty cur && Wt.is_unsigned (Ast.e_ty i) && Wt.wt_expr f P' G i then go r el else None
+        | _ => None
+        end
+    | Ast.ATup tty i :: r =>
+        match cur with
+        | Ast.TTup ts =>
+            if Wt.ty_eqb tty cur then
+              match nthN ts i with Some ti => go r ti | None => None end
+            else None
+        | _ => None
+        end
+    | Ast.AFld sty fld :: r =>
+        match cur with
+        | Ast.TStruct name =>
+            if Wt.ty_eqb sty cur then
+              match Ast.assocN name (Ast.p_structs P') with
+              | Some def => match Ast.assocN fld def with Some ft => go r ft | None => None end
+              | None => None
+              end
+            else None
+        | _ => None
+        end
+    end.
+Lemma wt_stmt_assign f G x accs e : Wt.wt_stmt (S f) P' G (Ast.St (Ast.SAssign x accs e) m0) =
+  match Wt.tlookup G x with
+  | Some (tx, true) =>
+      match ago f G accs tx with
+      | Some tf => if Wt.ty_eqb tf (Ast.e_ty e) && Wt.wt_expr f P' G e then Some (G, Wt.unit_ty) else None
+      | None => None
+      end
+  | _ => None
+  end.
+Proof. reflexivity. Qed.
+
+(* the field loop of Wt.wt_pat (PTup) *)
+Definition wlist :=
+  fix go (ps : list Ast.pattern) (ts : list Ast.ty) : option (list (N * Ast.ty)) :=
+    match ps, ts with
+    | [], [] => Some []
+    | p :: pr, t :: tr =>
+        if negb (Wt.ty_eqb (Ast.p_ty p) t) then None else
+        match Wt.wt_pat P' p, go pr tr with
+        | Some a, Some b => Some (a ++ b)
+        | _, _ => None
+        end
+    | _, _ => None
+    end.
+Lemma wt_pat_tup ps m ts : Wt.wt_pat P' (Ast.Pat (Ast.PTup ps) m (Ast.TTup ts)) = wlist ps ts.
+Proof. reflexivity. Qed.
+
+Lemma tbind_all_app G a b m : Wt.tbind_all G (a ++ b) m = Wt.tbind_all (Wt.tbind_all G a m) b m.
+Proof. unfold Wt.tbind_all. apply fold_left_app. Qed.
+
+(* ------------------------------------------------------------------ patterns *)
+
+Definition pat_ok (p : upattern) : Prop := forall g ty p' g',
+  frag_p p = true -> check_pattern D g p ty = COk (p', g') ->
+  Ast.p_ty (xp p') = xt ty /\
+  exists bs, Wt.wt_pat P' (xp p') = Some bs /\
+    (forall G, env_rel g G -> env_rel g' (Wt.tbind_all G bs false)) /\
+    (conc_ty ty = true -> env_ok g -> env_ok g').
+
+Lemma fields_loop_ok fs : Forall pat_ok fs -> forallb frag_p fs = true ->
+  forall ts g ps' g', length fs = length ts ->
+    (fix go (fs : list upattern) (ts : list cty) (g : cenv) : cres (list tpattern * cenv) :=
+       match fs, ts with
+       | fp :: fr, t :: tr =>
+           do r1 <- check_pattern D g fp t; do r2 <- go fr tr (snd r1); COk (fst r1 :: fst r2, snd r2)
+       | _, _ => COk ([], g)
+       end) fs ts g = COk (ps', g') ->
+  exists bs, wlist (map xp ps') (map xt ts) = Some bs /\
+    (forall G, env_rel g G -> env_rel g' (Wt.tbind_all G bs false)) /\
+    (forallb conc_ty ts = true -> env_ok g -> env_ok g').
+Proof.
+  induction 1 as [|q fs Hq Hfs IH]; intros Hf ts g ps' g' Hlen H.
+  - destruct ts; [|discriminate]. inv_all. exists []. cbn. auto.
+  - destruct ts as [|t ts]; [discriminate|]. cbn [forallb] in Hf. apply andb_true_iff in Hf. destruct Hf as [Hf1 Hf2].
+    apply cbind_ok in H. destruct H as [[p1 g1] [H1 H]]. apply cbind_ok in H. destruct H as [[ps2 g2] [H2 H]].
+    cbn [fst snd] in *. inv_all.
+    destruct (Hq _ _ _ _ Hf1 H1) as [Hty [bs1 [Hw1 [Hr1 Ho1]]]].
+    destruct (IH Hf2 ts g1 ps2 g' ltac:(cbn in Hlen; lia) H2) as [bs2 [Hw2 [Hr2 Ho2]]].
+    exists (bs1 ++ bs2). cbn [map wlist]. fold wlist. rewrite Hty, xt_refl, Hw1, Hw2. cbn [negb].
+    split; [reflexivity|]. split.
+    + intros G HG. rewrite tbind_all_app. auto.
+    + cbn [forallb]. intros Hc Hok. apply andb_true_iff in Hc. destruct Hc. auto.
+Qed.
+
+Lemma pat_sound : forall p, pat_ok p.
+Proof.
+  induction p using upattern_ind'; intros g ty p' g' Hf HH; try discriminate Hf; cbn [check_pattern] in HH.
+  - (* identifier *) inv_all. rewrite xp_id. cbn [Ast.p_ty Wt.wt_pat]. split; [reflexivity|].
+    exists [(intern s, xt ty)]. split; [reflexivity|]. split.
+    + intros G HG. cbn. apply env_rel_let. exact HG.
+    + intros Hc Hok. apply env_ok_let; assumption.
+  - (* tuple *)
+    cbn [frag_p] in Hf. apply cbind_ok in HH. destruct HH as [fts [Ht HH]].
+    destruct ty; try discriminate Ht. cbn [expect_tuple_type] in Ht. inv_all.
+    match goal with Hl : negb (lenN _ =? lenN _) = false |- _ =>
+      apply negb_false_iff in Hl; apply N.eqb_eq in Hl; unfold lenN in Hl; apply Nat2N.inj in Hl end.
+    match goal with Hl : _ = COk a |- _ =>
+      destruct a as [ps2 g2]; destruct (fields_loop_ok ps H Hf fts g ps2 g2 ltac:(lia) Hl) as [bs [Hw [Hr Ho]]] end.
+    cbn [fst snd]. rewrite xp_tup. cbn [Ast.p_ty export_ty]. split; [reflexivity|].
+    exists bs. rewrite wt_pat_tup. split; [exact Hw|]. split; [exact Hr|]. exact Ho.
+Qed.
+
+(* ------------------------------------------------------------------ the statement loop of Wt.wt_block *)
+
 Definition wgo (f : nat) :=
   fix go (ss : list Ast.stmt) (g : Wt.tenv) (last : Ast.ty) : option Ast.ty :=
     match ss with
@@ -376,26 +604,32 @@ Proof. reflexivity. Qed.
 
 Definition sty (s : tstmt) : Ast.ty := match s with TSExpr e => xt (ty_of e) | _ => Wt.unit_ty end.
 
-Definition E (f : nat) : Prop := forall e st e' st' G,
+(* what the checker state must satisfy *)
+Definition good (st : cstate) : Prop := env_ok (st_env st).
+
+Definition E (f : nat) : Prop := forall e st e' st' G F,
   frag_e e = true -> check_expr intern f D st e = COk (e', st') ->
-  env_ok (st_env st) -> env_rel (st_env st) G ->
-  conc_e e' = true /\ Wt.wt_expr f P' G (xe e') = true.
+  good st -> env_rel (st_env st) G -> (f <= F)%nat ->
+  conc_e e' = true /\ Wt.wt_expr F P' G (xe e') = true.
 
-Definition St (f : nat) : Prop := forall s st s' st' G,
+Definition St (f : nat) : Prop := forall s st s' st' G F,
   frag_s s = true -> check_stmt intern f D st s = COk (s', st') ->
-  env_ok (st_env st) -> env_rel (st_env st) G ->
-  conc_s s' = true /\ exists G', Wt.wt_stmt f P' G (xs s') = Some (G', sty s') /\
-                                 env_ok (st_env st') /\ env_rel (st_env st') G'.
+  good st -> env_rel (st_env st) G -> (f <= F)%nat ->
+  conc_s s' = true /\ exists G', Wt.wt_stmt F P' G (xs s') = Some (G', sty s') /\
+                                 good st' /\ env_rel (st_env st') G'.
 
-Definition Bl (f : nat) : Prop := forall b st b' ty st' G,
+Definition Bl (f : nat) : Prop := forall b st b' ty st' G F,
   forallb frag_s b = true -> check_block intern f D st b = COk (b', ty, st') ->
-  env_ok (st_env st) -> env_rel (st_env st) G ->
-  forallb conc_s b' = true /\ Wt.wt_block f P' G (map xs b') = Some (xt ty).
+  good st -> env_rel (st_env st) G -> (f <= F)%nat ->
+  forallb conc_s b' = true /\ Wt.wt_block F P' G (map xs b') = Some (xt ty).
 
-Definition Ss (f : nat) : Prop := forall b st b' st' G,
+Definition Ss (f : nat) : Prop := forall b st b' st' G F,
   forallb frag_s b = true -> check_stmts intern f D st b = COk (b', st') ->
-  env_ok (st_env st) -> env_rel (st_env st) G ->
-  forallb conc_s b' = true /\ exists t, Wt.wt_block f P' G (map xs b') = Some t.
+  good st -> env_rel (st_env st) G -> (f <= F)%nat ->
+  forallb conc_s b' = true /\ exists t, Wt.wt_block F P' G (map xs b') = Some t.
+
+Lemma good_e f st e r : check_expr intern f D st e = COk r -> good st -> good (snd r).
+Proof. intros H Hg. unfold good. rewrite (proj1 (check_env intern f D) _ _ _ H). exact Hg. Qed.
 
 Lemma fold_sty_last : forall b l,
   fold_left (fun _ s => sty s) b l = match last (map Some b) None with Some s => sty s | None => l end.
@@ -413,34 +647,46 @@ Proof.
   rewrite fold_sty_last. unfold last_expr_ty. destruct (last (map Some b) None) as [[]|]; reflexivity.
 Qed.
 
-Lemma stmts_sound f : St f -> forall b st b' st' G l,
-  forallb frag_s b = true -> mapM_st (check_stmt intern f D) st b = COk (b', st') ->
-  env_ok (st_env st) -> env_rel (st_env st) G ->
-  forallb conc_s b' = true /\ wgo f (map xs b') G l = Some (fold_left (fun _ s => sty s) b' l).
+Lemma last_expr_ty_conc b : forallb conc_s b = true -> conc_ty (last_expr_ty b) = true.
 Proof.
-  intros HS. induction b as [|s b IH]; intros st b' st' G l Hf H Hok Hrel; cbn [mapM_st] in H; inv_all'.
-  - split; reflexivity.
-  - cbn [forallb] in Hf. apply andb_true_iff in Hf. destruct Hf as [Hf1 Hf2].
-    destruct (HS _ _ _ _ _ Hf1 Hb Hok Hrel) as [Hc [G' [Hw [Hok' Hrel']]]].
-    destruct (IH _ _ _ _ (sty t) Hf2 Hb0 Hok' Hrel') as [Hc2 Hw2].
-    split; [cbn [forallb]; rewrite Hc, Hc2; reflexivity|].
-    cbn [map wgo fold_left]. fold (wgo f). rewrite Hw. exact Hw2.
+  unfold last_expr_ty. intro H.
+  assert (Hl : forall s, last (map Some b) None = Some s -> conc_s s = true).
+  { intros s Hs. rewrite forallb_forall in H. apply H. clear H.
+    induction b as [|u r IH]; [discriminate|]. destruct r as [|v r]; [inversion Hs; left; reflexivity|].
+    right. apply IH. exact Hs. }
+  destruct (last (map Some b) None) as [[]|] eqn:El; try reflexivity.
+  apply conc_e_ty. apply (Hl _ eq_refl).
 Qed.
 
-Lemma exprs_sound f : E f -> forall es st es' st' G,
-  forallb frag_e es = true -> mapM_st (check_expr intern f D) st es = COk (es', st') ->
-  env_ok (st_env st) -> env_rel (st_env st) G ->
-  forallb conc_e es' = true /\ forallb (fun e => Wt.wt_expr f P' G (xe e)) es' = true /\
-  length es' = length es.
+Lemma stmts_sound f F : St f -> (f <= F)%nat -> forall b st b' st' G l,
+  forallb frag_s b = true -> mapM_st (check_stmt intern f D) st b = COk (b', st') ->
+  good st -> env_rel (st_env st) G ->
+  forallb conc_s b' = true /\ wgo F (map xs b') G l = Some (fold_left (fun _ s => sty s) b' l).
 Proof.
-  intros HE. induction es as [|e es IH]; intros st es' st' G Hf H Hok Hrel; cbn [mapM_st] in H; inv_all'.
+  intros HS HF. induction b as [|s b IH]; intros st b' st' G l Hf H Hok Hrel; cbn [mapM_st] in H; inv_all'.
+  - split; reflexivity.
+  - cbn [forallb] in Hf. apply andb_true_iff in Hf. destruct Hf as [Hf1 Hf2].
+    destruct (HS _ _ _ _ _ F Hf1 Hb Hok Hrel HF) as [Hc [G' [Hw [Hok' Hrel']]]].
+    destruct (IH _ _ _ _ (sty t) Hf2 Hb0 Hok' Hrel') as [Hc2 Hw2].
+    split; [cbn [forallb]; rewrite Hc, Hc2; reflexivity|].
+    cbn [map wgo fold_left]. fold (wgo F). rewrite Hw. exact Hw2.
+Qed.
+
+Lemma exprs_sound f F : E f -> (f <= F)%nat -> forall es st es' st' G,
+  forallb frag_e es = true -> mapM_st (check_expr intern f D) st es = COk (es', st') ->
+  good st -> env_rel (st_env st) G ->
+  forallb conc_e es' = true /\ forallb (fun e => Wt.wt_expr F P' G (xe e)) es' = true /\
+  length es' = length es /\ st_env st' = st_env st.
+Proof.
+  intros HE HF. induction es as [|e es IH]; intros st es' st' G Hf H Hok Hrel; cbn [mapM_st] in H; inv_all'.
   - repeat split; reflexivity.
   - cbn [forallb] in Hf. apply andb_true_iff in Hf. destruct Hf as [Hf1 Hf2].
-    destruct (HE _ _ _ _ _ Hf1 Hb Hok Hrel) as [Hc Hw].
+    destruct (HE _ _ _ _ _ F Hf1 Hb Hok Hrel HF) as [Hc Hw].
     pose proof (proj1 (check_env intern f D) _ _ _ Hb) as Henv. cbn [snd] in Henv.
-    rewrite <- Henv in Hok, Hrel.
-    destruct (IH _ _ _ _ Hf2 Hb0 Hok Hrel) as [Hc2 [Hw2 Hl]].
-    cbn [forallb length]. rewrite Hc, Hc2, Hw, Hw2, Hl. repeat split; reflexivity.
+    pose proof (good_e _ _ _ _ Hb Hok) as Hok2. cbn [snd] in Hok2.
+    rewrite <- Henv in Hrel.
+    destruct (IH _ _ _ _ Hf2 Hb0 Hok2 Hrel) as [Hc2 [Hw2 [Hl He]]].
+    cbn [forallb length]. rewrite Hc, Hc2, Hw, Hw2, Hl. repeat split; try reflexivity. congruence.
 Qed.
 
 Lemma mapM_check_type_conc f t : forall l l',
@@ -453,25 +699,6 @@ Proof.
   split; [reflexivity|]. intros y [<-|Hy]; auto.
 Qed.
 
-Ltac sub_e HE G H :=
-  let Hc := fresh "Hc" in let Hw := fresh "Hw" in let Henv := fresh "Henv" in
-  pose proof (proj1 (check_env intern _ D) _ _ _ H) as Henv; cbn [snd] in Henv;
-  match type of H with Infer.check_expr _ _ _ ?st ?e = _ =>
-    let Hf := fresh in assert (Hf : frag_e e = true) by assumption;
-    destruct (HE _ _ _ _ G Hf H ltac:(first [assumption|congruence]) ltac:(first [assumption|congruence])) as [Hc Hw] end.
-
-Ltac fin_wt :=
-  cbn [conc_e conc_s export_expr export_stmt Wt.wt_expr export_ty ty_of conc_ty export_op];
-  rewrite ?e_ty_xe, ?xt_refl, ?N.eqb_refl;
-  repeat match goal with
-  | H : conc_e _ = true |- _ => rewrite H
-  | H : conc_ty _ = true |- _ => rewrite H
-  | H : Wt.wt_expr _ _ _ _ = true |- _ => rewrite H
-  | H : expect_num_type _ = COk _ |- _ => rewrite (expect_num_x _ _ H)
-  | H : expect_signed_num_type _ = COk _ |- _ => rewrite (expect_signed_x _ _ H)
-  | H : expect_bool_or_num_type _ = COk _ |- _ => rewrite (expect_bool_or_num_x _ _ H)
-  end.
-
 Lemma scalar_conc ty t : scalar_uty ty = true -> concrete_of D ty = COk t -> conc_ty t = true.
 Proof.
   unfold concrete_of. destruct ty; try discriminate; cbn [scalar_uty as_concrete_type]; intros Hs H; inv_all.
@@ -480,56 +707,101 @@ Proof.
   - destruct t0; try discriminate; reflexivity.
 Qed.
 
-Lemma last_expr_ty_conc b : forallb conc_s b = true -> conc_ty (last_expr_ty b) = true.
+Lemma pick_conc t l : conc_ty t = true -> pick_elem_ty t l = t.
+Proof. intro H. unfold pick_elem_ty. rewrite (conc_not_uU _ H), (conc_not_sU _ H). reflexivity. Qed.
+
+Lemma conc_tys l : forallb conc_e l = true -> forallb conc_ty (map ty_of l) = true.
 Proof.
-  unfold last_expr_ty. intro H.
-  assert (Hl : forall s, last (map Some b) None = Some s -> conc_s s = true).
-  { intros s Hs. rewrite forallb_forall in H. apply H. clear H.
-    induction b as [|u r IH]; [discriminate|]. destruct r as [|v r]; [inversion Hs; left; reflexivity|].
-    right. apply IH. exact Hs. }
-  destruct (last (map Some b) None) as [[]|] eqn:El; try reflexivity.
-  apply conc_e_ty. apply (Hl _ eq_refl).
+  induction l as [|x l IH]; [reflexivity|]. cbn [forallb map]. intro H. apply andb_true_iff in H. destruct H.
+  rewrite (conc_e_ty _ H), IH; auto.
 Qed.
 
-Lemma wt_expr_block f G b t : Wt.wt_expr (S f) P' G (Ast.Ex (Ast.EBlock b) (m0) t) =
-  match Wt.wt_block f P' ([] :: G) b with Some tb => Wt.ty_eqb tb t | None => false end.
-Proof. reflexivity. Qed.
-Lemma wt_stmt_let f G p e : Wt.wt_stmt (S f) P' G (Ast.St (Ast.SLet p e) m0) =
-  if Wt.wt_expr f P' G e && Wt.ty_eqb (Ast.p_ty p) (Ast.e_ty e)
-  then match Wt.wt_pat P' p with Some bs => Some (Wt.tbind_all G bs false, Wt.unit_ty) | None => None end
-  else None.
-Proof. reflexivity. Qed.
-Lemma wt_stmt_letmut f G x e : Wt.wt_stmt (S f) P' G (Ast.St (Ast.SLetMut x e) m0) =
-  if Wt.wt_expr f P' G e then Some (Wt.tbind G x (Ast.e_ty e) true, Wt.unit_ty) else None.
-Proof. reflexivity. Qed.
-Lemma wt_stmt_expr f G e : Wt.wt_stmt (S f) P' G (Ast.St (Ast.SExpr e) m0) =
-  if Wt.wt_expr f P' G e then Some (G, Ast.e_ty e) else None.
-Proof. reflexivity. Qed.
+Lemma forallb2_tuple f G l : forallb (fun e => Wt.wt_expr f P' G (xe e)) l = true ->
+  Wt.forallb2 (fun e t => Wt.ty_eqb (Ast.e_ty e) t && Wt.wt_expr f P' G e) (map xe l) (map xt (map ty_of l)) = true.
+Proof.
+  induction l as [|x l IH]; [reflexivity|]. cbn [forallb map Wt.forallb2]. intro H. apply andb_true_iff in H. destruct H as [H1 H2].
+  rewrite e_ty_xe, xt_refl, H1, IH; auto.
+Qed.
 
-Lemma xe_block b t : xe (TE (TBlock b) t) = Ast.Ex (Ast.EBlock (map xs b)) m0 (xt t).
-Proof. reflexivity. Qed.
-Lemma xs_let p e : xs (TSLet p e) = Ast.St (Ast.SLet (export_pattern intern en p) (xe e)) m0.
-Proof. reflexivity. Qed.
-Lemma xs_letmut x e : xs (TSLetMut x e) = Ast.St (Ast.SLetMut (intern x) (xe e)) m0.
-Proof. reflexivity. Qed.
-Lemma xs_expr e : xs (TSExpr e) = Ast.St (Ast.SExpr (xe e)) m0.
-Proof. reflexivity. Qed.
+Lemma forallb_arr f G l t : forallb (fun e => Wt.wt_expr f P' G (xe e)) l = true -> (forall x, In x l -> ty_of x = t) ->
+  forallb (fun e => Wt.ty_eqb (Ast.e_ty e) (xt t) && Wt.wt_expr f P' G e) (map xe l) = true.
+Proof.
+  induction l as [|x l IH]; [reflexivity|]. cbn [forallb map]. intros H Ht. apply andb_true_iff in H. destruct H as [H1 H2].
+  rewrite e_ty_xe, (Ht x (or_introl eq_refl)), xt_refl, H1, IH; auto. intros; apply Ht; right; assumption.
+Qed.
+
+Lemma lenN_map {A B} (g : A -> B) l : lenN (map g l) = lenN l.
+Proof. unfold lenN. rewrite map_length. reflexivity. Qed.
+
+(* the accessor loop of an assignment *)
+Lemma accs_ok f F : E f -> (f <= F)%nat -> forall accs st t tas t' st' G,
+  forallb frag_a accs = true ->
+  accs_loop (check_expr intern f D) D st t accs = COk (tas, t', st') ->
+  good st -> env_rel (st_env st) G -> conc_ty t = true ->
+  ago F G (map xa tas) (xt t) = Some (xt t') /\ conc_ty t' = true /\ st_env st' = st_env st.
+Proof.
+  intros HE HF. induction accs as [|a accs IH]; intros st t tas t' st' G Hf H Hok Hrel Hct; cbn [accs_loop] in H.
+  - inv_all. repeat split; auto.
+  - cbn [forallb] in Hf. apply andb_true_iff in Hf. destruct Hf as [Hf1 Hf2].
+    apply cbind_ok in H. destruct H as [[[ta t1] st1] [H1 H]]. cbv beta iota in H.
+    apply cbind_ok in H. destruct H as [[[tas2 tf] st2] [H2 H]]. cbv beta iota in H. inv_all.
+    destruct a; try discriminate Hf1; cbn [frag_a] in Hf1.
+    + (* [i] *)
+      apply cbind_ok in H1. destruct H1 as [el [Hel H1]]. destruct t as [| | |el0 n| | |]; try discriminate Hel. cbn in Hel. assert (el0 = el) by congruence. subst el0. clear Hel.
+      apply cbind_ok in H1. destruct H1 as [[i1 sti] [Hi H1]]. cbn [fst snd] in H1.
+      apply cbind_ok in H1. destruct H1 as [i2 [Hcoc H1]]. inversion H1; subst ta t1 st1; clear H1.
+      destruct (HE _ _ _ _ _ F Hf1 Hi Hok Hrel HF) as [Hci Hwi].
+      destruct (coc_unsigned_conc _ _ _ Hcoc (conc_e_ty _ Hci)) as [-> Ety].
+      pose proof (proj1 (check_env intern f D) _ _ _ Hi) as Henv. cbn [snd] in Henv.
+      pose proof (good_e _ _ _ _ Hi Hok) as Hok2. cbn [snd] in Hok2. rewrite <- Henv in Hrel.
+      cbn [conc_ty] in Hct.
+      destruct (IH _ _ _ _ _ _ Hf2 H2 Hok2 Hrel Hct) as [Hago [Hc' He]].
+      cbn [map ago]. fold (ago F G). rewrite xa_arr. cbn [export_ty]. fold (xt (CArray el n)).
+      rewrite e_ty_xe, Ety, Hwi. cbn [export_ty Wt.is_unsigned]. 
+      change (Ast.TArr (xt el) n) with (xt (CArray el n)). rewrite xt_refl. cbn [andb].
+      split; [exact Hago|]. split; [exact Hc'|congruence].
+    + (* .i *)
+      apply cbind_ok in H1. destruct H1 as [vts [Hvt H1]]. destruct t as [| | | |vts0| |]; try discriminate Hvt. cbn in Hvt. assert (vts0 = vts) by congruence. subst vts0. clear Hvt.
+      destruct (nthN vts index) as [ti|] eqn:En; [|discriminate]. inversion H1; subst ta t1 st1; clear H1.
+      cbn [conc_ty] in Hct. pose proof (conc_nth _ _ _ Hct En) as Hcti.
+      destruct (IH _ _ _ _ _ _ Hf2 H2 Hok Hrel Hcti) as [Hago [Hc' He]].
+      cbn [map ago]. fold (ago F G). rewrite xa_tup. cbn [export_ty].
+      change (Ast.TTup (map xt vts)) with (xt (CTuple vts)). rewrite xt_refl. cbn [export_ty].
+      rewrite nthN_map, En. cbn [option_map]. auto.
+Qed.
+
+Ltac env_tac := first [assumption | (repeat match goal with He : st_env _ = st_env _ |- _ => rewrite He end); assumption].
+
+(* one sub-expression: the IH, the environment equality and [good] of the state after it *)
+Ltac sub_e HE G F HF H :=
+  let Hc := fresh "Hc" in let Hw := fresh "Hw" in let Henv := fresh "Henv" in let Hg := fresh "Hg" in
+  pose proof (proj1 (check_env intern _ D) _ _ _ H) as Henv; cbn [snd] in Henv;
+  match type of H with Infer.check_expr _ _ _ ?st ?e = _ =>
+    let Hf := fresh in assert (Hf : frag_e e = true) by assumption;
+    let Hg0 := fresh "Hg0" in
+    assert (Hg0 : good st) by assumption;
+    pose proof (good_e _ _ _ _ H Hg0) as Hg; cbn [snd] in Hg; clear Hg0;
+    destruct (HE _ _ _ _ G F Hf H ltac:(assumption) ltac:(env_tac) HF) as [Hc Hw] end.
+
+Ltac bind_e H x st Hx := apply cbind_ok in H; destruct H as [[x st] [Hx H]]; cbv beta zeta in H; cbn [fst snd] in H.
 
 Theorem sound_all : forall f, E f /\ St f /\ Bl f /\ Ss f.
 Proof.
   induction f as [|f [HE [HS [HB HSs]]]].
   { repeat split; intros; discriminate. }
   assert (HB' : Bl (S f)).
-  { intros b st b' ty st' G Hf H Hok Hrel. cbn [check_block] in H. refold H. inv_all'.
-    destruct (stmts_sound f HS _ _ _ _ _ Wt.unit_ty Hf Hb Hok Hrel) as [Hc Hw].
+  { intros b st b' ty st' G F Hf H Hok Hrel HF. destruct F as [|F]; [lia|]. apply le_S_n in HF.
+    cbn [check_block] in H. refold H. inv_all'.
+    destruct (stmts_sound f F HS HF _ _ _ _ _ Wt.unit_ty Hf Hb Hok Hrel) as [Hc Hw].
     split; [exact Hc|]. rewrite wt_block_S, Hw, last_expr_ty_x. reflexivity. }
   assert (HSs' : Ss (S f)).
-  { intros b st b' st' G Hf H Hok Hrel. cbn [check_stmts] in H. refold H.
-    destruct (stmts_sound f HS _ _ _ _ _ Wt.unit_ty Hf H Hok Hrel) as [Hc Hw].
+  { intros b st b' st' G F Hf H Hok Hrel HF. destruct F as [|F]; [lia|]. apply le_S_n in HF.
+    cbn [check_stmts] in H. refold H.
+    destruct (stmts_sound f F HS HF _ _ _ _ _ Wt.unit_ty Hf H Hok Hrel) as [Hc Hw].
     split; [exact Hc|]. eexists. rewrite wt_block_S. exact Hw. }
   split; [|split; [|split; assumption]].
-  - (* expressions *)
-    intros e st e' st' G Hf H Hok Hrel. destruct e; try discriminate Hf; cbn [frag_e] in Hf;
+  - (* ---------------------------------------------------------------- expressions *)
+    intros e st e' st' G F Hf H Hok Hrel HF. destruct F as [|F]; [lia|]. apply le_S_n in HF. destruct e; try discriminate Hf; cbn [frag_e] in Hf;
       cbn [Infer.check_expr] in H; refold H.
     + (* true *) inv_all. split; reflexivity.
     + inv_all. split; reflexivity.
@@ -542,61 +814,539 @@ Proof.
       * inv_all. cbn [conc_e export_expr Wt.wt_expr]. rewrite (Hok _ _ _ Eg).
         destruct (Hrel _ _ _ Eg) as [m' [Hl _]]. rewrite Hl, xt_refl. split; reflexivity.
       * rewrite D_consts in H. discriminate.
-    + (* array repeat *) inv_all'. sub_e HE G Hb. cbn [conc_e export_expr Wt.wt_expr export_ty ty_of conc_ty].
+    + (* array literal *)
+      apply cbind_ok in H. destruct H as [[es1 st1] [Hes H]]. cbn [fst snd] in H.
+      destruct (exprs_sound f F HE HF _ _ _ _ G Hf Hes Hok Hrel) as [Hces [Hwes [Hlen Henv]]].
+      destruct es1 as [|first es1]; [discriminate|].
+      assert (Hcf : conc_ty (ty_of first) = true).
+      { cbn [forallb] in Hces. apply andb_true_iff in Hces. apply conc_e_ty. tauto. }
+      rewrite (pick_conc _ _ Hcf) in H.
+      apply cbind_ok in H. destruct H as [fields' [Hm H]]. inversion H; subst; clear H.
+      destruct (mapM_check_type_conc _ _ _ _ Hm Hces) as [-> Hall].
+      cbn [conc_e conc_ty export_expr Wt.wt_expr export_ty]. rewrite Hcf, Hces.
+      rewrite lenN_map. unfold lenN. rewrite Hlen, N.eqb_refl.
+      rewrite (forallb_arr _ _ _ _ Hwes Hall). split; reflexivity.
+    + (* array repeat *) inv_all'. sub_e HE G F HF Hb. cbn [conc_e export_expr Wt.wt_expr export_ty ty_of conc_ty].
       rewrite Hc, (conc_e_ty _ Hc), Hw, N.eqb_refl, e_ty_xe, xt_refl. split; reflexivity.
+    + (* array access *)
+      apply andb_true_iff in Hf. destruct Hf as [Hf1 Hf2].
+      bind_e H a1 st1 Ha. bind_e H i1 st2 Hi.
+      apply cbind_ok in H. destruct H as [el [Hel H]]. apply cbind_ok in H. destruct H as [i2 [Hcoc H]].
+      inversion H; subst; clear H.
+      sub_e HE G F HF Ha. sub_e HE G F HF Hi.
+      destruct (coc_unsigned_conc _ _ _ Hcoc (conc_e_ty _ Hc0)) as [-> Ety].
+      pose proof (conc_e_ty _ Hc) as Hca.
+      destruct (ty_of a1) as [| | |el0 n0| | |] eqn:Eta; try discriminate Hel. cbn in Hel. inversion Hel; subst; clear Hel.
+      cbn [conc_ty] in Hca.
+      cbn [conc_e export_expr Wt.wt_expr]. rewrite !e_ty_xe, Eta, Ety, Hca, Hc, Hc0, Hw, Hw0.
+      cbn [export_ty Wt.is_unsigned]. rewrite xt_refl. split; reflexivity.
+    + (* tuple literal *)
+      apply cbind_ok in H. destruct H as [[es1 st1] [Hes H]]. cbn [fst snd] in H. inversion H; subst; clear H.
+      destruct (exprs_sound f F HE HF _ _ _ _ G Hf Hes Hok Hrel) as [Hces [Hwes [Hlen Henv]]].
+      cbn [conc_e conc_ty export_expr Wt.wt_expr export_ty]. rewrite (conc_tys _ Hces), Hces.
+      rewrite (forallb2_tuple _ _ _ Hwes). split; reflexivity.
+    + (* tuple access *)
+      bind_e H t1 st1 Ht. apply cbind_ok in H. destruct H as [vts [Hvt H]].
+      sub_e HE G F HF Ht. pose proof (conc_e_ty _ Hc) as Hct.
+      destruct (ty_of t1) as [| | | |vts0| |] eqn:Ett; try discriminate Hvt. cbn in Hvt. inversion Hvt; subst; clear Hvt.
+      destruct (nthN vts i) as [ti|] eqn:En; [|discriminate]. inversion H; subst; clear H.
+      cbn [conc_ty] in Hct.
+      cbn [conc_e export_expr Wt.wt_expr]. rewrite e_ty_xe, Ett. cbn [export_ty]. rewrite nthN_map, En. cbn [option_map].
+      rewrite xt_refl, Hw, Hc, (conc_nth _ _ _ Hct En). split; reflexivity.
     + (* unary *)
       destruct o; inv_all';
-        match goal with Hx : Infer.check_expr _ _ _ _ _ = COk _ |- _ => sub_e HE G Hx end;
-        pose proof (conc_e_ty _ Hc) as Hct; fin_wt; rewrite ?xt_refl; split; try reflexivity.
-      all: match goal with H : expect_bool_or_num_type _ = COk _ |- _ =>
+        match goal with Hx : Infer.check_expr _ _ _ _ _ = COk _ |- _ => sub_e HE G F HF Hx end;
+        pose proof (conc_e_ty _ Hc) as Hct;
+        cbn [conc_e export_expr Wt.wt_expr export_ty ty_of]; rewrite ?e_ty_xe, ?xt_refl, Hc, Hct, Hw; split; try reflexivity.
+      * match goal with H : expect_bool_or_num_type _ = COk _ |- _ =>
              pose proof (expect_bool_or_num_x _ _ H) as Hb1; cbn [ty_of] in Hb1; rewrite Hb1; reflexivity end.
+      * match goal with H : expect_signed_num_type _ = COk _ |- _ =>
+             pose proof (expect_signed_x _ _ H) as Hb1; cbn [ty_of] in Hb1; rewrite Hb1; reflexivity end.
+    + (* binary *)
+      apply andb_true_iff in Hf. destruct Hf as [Hf1 Hf2].
+      bind_e H x1 st1 Hx. bind_e H y1 st2 Hy.
+      sub_e HE G F HF Hx. sub_e HE G F HF Hy.
+      pose proof (conc_e_ty _ Hc) as Htx. pose proof (conc_e_ty _ Hc0) as Hty.
+      destruct o.
+      1-12: (apply cbind_ok in H; destruct H as [[[x2 y2] ty] [Hu H]]; cbv beta iota in H;
+             destruct (unify_conc _ _ _ _ _ Hu Htx Hty) as [-> [-> [Et1 Et2]]]; subst ty).
+      1-10: (apply cbind_ok in H; destruct H as [u0 [Hex H]]).
+      13-14: (apply cbind_ok in H; destruct H as [u0 [Hex H]]; apply cbind_ok in H; destruct H as [y2 [Hcoc H]];
+              destruct (coc_unsigned_conc _ _ _ Hcoc Hty) as [-> Ey]).
+      15-16: (destruct (ty_of x1) eqn:Ex1; try discriminate H; destruct (ty_of y1) eqn:Ey1; try discriminate H).
+      all: inversion H; subst; clear H.
+      all: cbn [conc_e export_expr export_op Wt.wt_expr export_ty ty_of conc_ty];
+           rewrite ?e_ty_xe, ?Et2, ?Ey, ?Ex1, ?Ey1, ?Hc, ?Hc0, ?Hw, ?Hw0, ?Htx, ?xt_refl.
+      1-5: rewrite (expect_num_x _ _ Hex).
+      6-8: rewrite (orb_comm (Wt.is_int _)), (expect_bool_or_num_x _ _ Hex).
+      9-10: rewrite (expect_num_x _ _ Hex).
+      13-14: rewrite (expect_num_x _ _ Hex).
+      all: split; reflexivity.
     + (* block *)
       apply cbind_ok in H. destruct H as [[[body ty] st1] [Hblk H]]. cbv beta iota in H. inv_all.
-      destruct (HB _ _ _ _ _ ([] :: G) Hf Hblk) as [Hcb Hwb].
+      destruct (HB _ _ _ _ _ ([] :: G) F Hf Hblk) as [Hcb Hwb].
       { apply env_ok_push. exact Hok. }
       { apply env_rel_push. exact Hrel. }
+      { exact HF. }
       assert (Ety : ty = last_expr_ty body).
       { destruct f as [|f0]; [discriminate|]. cbn [check_block] in Hblk. refold Hblk. inv_all. reflexivity. }
       rewrite xe_block, wt_expr_block, Hwb, xt_refl. cbn [conc_e]. rewrite Hcb.
       rewrite Ety, (last_expr_ty_conc _ Hcb). split; reflexivity.
-  - (* statements *)
-    intros s st s' st' G Hf H Hok Hrel. destruct s; try discriminate Hf; cbn [frag_s] in Hf;
+    + (* if *)
+      apply andb_true_iff in Hf. destruct Hf as [Hf Hf3]. apply andb_true_iff in Hf. destruct Hf as [Hf1 Hf2].
+      bind_e H c1 st1 Hc1. bind_e H a1 st2 Ha. bind_e H b1 st3 Hb.
+      apply cbind_ok in H. destruct H as [c2 [Hct H]].
+      apply cbind_ok in H. destruct H as [[[a2 b2] ty] [Hu H]]. cbv beta iota in H. inversion H; subst; clear H.
+      sub_e HE G F HF Hc1. sub_e HE G F HF Ha. sub_e HE G F HF Hb.
+      destruct (check_type_conc _ _ _ _ Hct Hc) as [-> Etc].
+      destruct (unify_conc _ _ _ _ _ Hu (conc_e_ty _ Hc0) (conc_e_ty _ Hc2)) as [-> [-> [Et1 Et2]]]. subst ty.
+      cbn [conc_e export_expr Wt.wt_expr export_ty ty_of].
+      rewrite !e_ty_xe, Etc, Et2, xt_refl, Hc, Hc0, Hc2, Hw, Hw0, Hw1, (conc_e_ty _ Hc0). split; reflexivity.
+    + (* cast *)
+      apply andb_true_iff in Hf. destruct Hf as [Hf1 Hf2].
+      apply cbind_ok in H. destruct H as [ty' [Hty H]]. bind_e H x1 st1 Hx.
+      apply cbind_ok in H. destruct H as [u1 [Hex1 H]]. apply cbind_ok in H. destruct H as [u2 [Hex2 H]].
+      inversion H; subst; clear H. sub_e HE G F HF Hx.
+      cbn [conc_e export_expr Wt.wt_expr export_ty ty_of].
+      rewrite e_ty_xe, xt_refl, Hc, Hw, (scalar_conc _ _ Hf1 Hty).
+      rewrite (orb_comm (Wt.is_int (xt ty'))), (expect_bool_or_num_x _ _ Hex2).
+      rewrite (orb_comm (Wt.is_int (xt (ty_of x1)))), (expect_bool_or_num_x _ _ Hex1). split; reflexivity.
+    + (* range *)
+      destruct ((hi <=? lo) || (u32_max <? hi - lo)) eqn:Er; [discriminate|]. inversion H; subst; clear H.
+      apply orb_false_iff in Er. destruct Er as [Er _]. apply N.leb_gt in Er.
+      cbn [conc_e conc_ty export_expr Wt.wt_expr].
+      change (Ast.TArr (Ast.TInt false (ubits t)) (hi - lo)) with (xt (CArray (CUnsigned t) (hi - lo))).
+      rewrite xt_refl. destruct t; try discriminate Hf; cbn [conc_ty];
+        (split; [reflexivity|]; apply andb_true_iff; split; [apply N.leb_le; lia|reflexivity]).
+  - (* ---------------------------------------------------------------- statements *)
+    intros s st s' st' G F Hf H Hok Hrel HF. destruct F as [|F]; [lia|]. apply le_S_n in HF. destruct s; cbn [frag_s] in Hf;
       cbn [Infer.check_stmt] in H; refold H.
     + (* let *)
-      destruct p; try discriminate Hf. destruct ty; try discriminate Hf.
-      apply cbind_ok in H. destruct H as [[e1 st1] [He H]]. cbv beta in H. cbn [fst snd cbind] in H.
-      cbn [check_pattern cbind fst snd] in H. inv_all.
-      sub_e HE G He. pose proof (conc_e_ty _ Hc) as Hct.
-      split; [exact Hc|]. exists (Wt.tbind G (intern s) (xt (ty_of e1)) false).
-      cbn [st_env with_env]. rewrite Henv.
-      split; [|split; [apply env_ok_let; assumption|apply env_rel_let; assumption]].
-      rewrite xs_let, wt_stmt_let, Hw, e_ty_xe. cbn [export_pattern Ast.p_ty Wt.wt_pat sty]. rewrite xt_refl. reflexivity.
+      apply andb_true_iff in Hf. destruct Hf as [Hfp Hfe].
+      bind_e H e1 st1 He. sub_e HE G F HF He. pose proof (conc_e_ty _ Hc) as Hct.
+      apply cbind_ok in H. destruct H as [e2 [Hann H]].
+      assert (e2 = e1).
+      { destruct ty; [|inversion Hann; reflexivity]. apply cbind_ok in Hann. destruct Hann as [ty' [_ Hann]].
+        apply check_type_conc in Hann; tauto. }
+      subst e2. clear Hann.
+      apply cbind_ok in H. destruct H as [[p1 g1] [Hp H]]. apply cbind_ok in H. destruct H as [u0 [_ H]].
+      cbn [fst snd] in H. inversion H; subst; clear H.
+      destruct (pat_sound p _ _ _ _ Hfp Hp) as [Hpty [bs [Hwp [Hrp Hop]]]].
+      split; [exact Hc|]. exists (Wt.tbind_all G bs false). cbn [st_env with_env].
+      split; [|split; [apply Hop; assumption|apply Hrp; env_tac]].
+      rewrite xs_let, wt_stmt_let, Hw, e_ty_xe, Hpty, xt_refl, Hwp. reflexivity.
     + (* let mut *)
-      destruct ty; try discriminate Hf.
-      apply cbind_ok in H. destruct H as [[e1 st1] [He H]]. cbv beta in H. cbn [fst snd cbind] in H.
-      apply cbind_ok in H. destruct H as [e2 [Hi H]]. inv_all.
-      sub_e HE G He. apply constrain_to_i32_conc in Hi; [|exact Hc]. subst e2.
-      pose proof (conc_e_ty _ Hc) as Hct.
+      bind_e H e1 st1 He. sub_e HE G F HF He. pose proof (conc_e_ty _ Hc) as Hct.
+      apply cbind_ok in H. destruct H as [e2 [Hann H]].
+      assert (e2 = e1).
+      { destruct ty; [|inversion Hann; reflexivity]. apply cbind_ok in Hann. destruct Hann as [ty' [_ Hann]].
+        apply check_type_conc in Hann; tauto. }
+      subst e2. clear Hann.
+      apply cbind_ok in H. destruct H as [e3 [Hi H]]. inversion H; subst; clear H.
+      apply constrain_to_i32_conc in Hi; [|exact Hc]. subst e3.
       split; [exact Hc|]. exists (Wt.tbind G (intern x) (xt (ty_of e1)) true).
       cbn [st_env with_env]. rewrite Henv.
       split; [|split; [apply env_ok_let; assumption|apply env_rel_let; assumption]].
       rewrite xs_letmut, wt_stmt_letmut, Hw, e_ty_xe. reflexivity.
-    + (* expression statement *)
-      apply cbind_ok in H. destruct H as [[e1 st1] [He H]]. inv_all.
-      sub_e HE G He. split; [exact Hc|]. exists G. cbn [st_env]. rewrite Henv.
+    + (* assignment *)
+      apply andb_true_iff in Hf. destruct Hf as [Hfa Hfe].
+      destruct (env_get (st_env st) x) as [[tx [|]]|] eqn:Eg; try discriminate H.
+      apply cbind_ok in H. destruct H as [[[tas t'] st1] [Hacc H]]. cbv beta iota in H.
+      bind_e H v1 st2 Hv. apply cbind_ok in H. destruct H as [v2 [Hct H]]. inversion H; subst; clear H.
+      destruct (accs_ok f F HE HF _ _ _ _ _ _ G Hfa Hacc Hok Hrel (Hok _ _ _ Eg)) as [Hago [Hct' Henv1]].
+      assert (Hg1 : good st1) by (unfold good; rewrite Henv1; exact Hok).
+      assert (Hr1 : env_rel (st_env st1) G) by (rewrite Henv1; exact Hrel).
+      sub_e HE G F HF Hv. destruct (check_type_conc _ _ _ _ Hct Hc) as [-> Etv].
+      split; [exact Hc|]. exists G. split; [|split; [exact Hg|env_tac]].
+      destruct (Hrel _ _ _ Eg) as [m' [Hl Hm]]. rewrite (Hm eq_refl) in Hl.
+      rewrite xs_assign, wt_stmt_assign, Hl, Hago, e_ty_xe, Etv, xt_refl, Hw. reflexivity.
+    + (* for *)
+      apply andb_true_iff in Hf. destruct Hf as [Hf Hfb]. apply andb_true_iff in Hf. destruct Hf as [Hfp Hfe].
+      match type of H with (if ?c then _ else _) = _ => destruct c; [discriminate|] end.
+      bind_e H a1 st1 Ha. sub_e HE G F HF Ha. pose proof (conc_e_ty _ Hc) as Hca.
+      apply cbind_ok in H. destruct H as [el [Hel H]].
+      destruct (ty_of a1) as [| | |el0 n0| | |] eqn:Eta; try discriminate Hel. cbn in Hel. inversion Hel; subst; clear Hel.
+      cbn [conc_ty] in Hca.
+      apply cbind_ok in H. destruct H as [[p1 g1] [Hp H]]. apply cbind_ok in H. destruct H as [u0 [_ H]].
+      cbn [fst snd] in H. apply cbind_ok in H. destruct H as [[body1 st2] [Hbody H]]. cbn [fst snd] in H.
+      inversion H; subst; clear H.
+      destruct (pat_sound p _ _ _ _ Hfp Hp) as [Hpty [bs [Hwp [Hrp Hop]]]].
+      destruct (HSs _ _ _ _ (Wt.tbind_all ([] :: G) bs false) F Hfb Hbody) as [Hcb [tb Hwb]]; [| |exact HF|].
+      { unfold good. cbn [st_env with_env]. apply Hop; [exact Hca|]. apply env_ok_push. exact Hg. }
+      { cbn [st_env with_env]. apply Hrp. apply env_rel_push. env_tac. }
+      pose proof (proj1 (proj2 (check_env intern f D)) _ _ _ Hbody) as Htl. cbn [snd st_env with_env] in Htl.
+      pose proof (check_pattern_tl _ _ _ _ _ Hp) as Htl2. cbn [snd env_push tl] in Htl2.
+      split; [cbn [conc_s]; rewrite Hc, Hcb; reflexivity|]. exists G.
+      assert (Henvf : env_pop (st_env st2) = st_env st).
+      { change env_pop with (@tl cscope). congruence. }
+      cbn [st_env with_env]. unfold good. cbn [st_env]. rewrite Henvf.
       split; [|split; assumption].
+      rewrite xs_for, wt_stmt_for, e_ty_xe, Eta. cbn [export_ty]. rewrite Hw, Hpty, xt_refl, Hwp, Hwb. reflexivity.
+    + (* expression statement *)
+      bind_e H e1 st1 He. inversion H; subst; clear H.
+      sub_e HE G F HF He. split; [exact Hc|]. exists G.
+      split; [|split; [exact Hg|env_tac]].
       rewrite xs_expr, wt_stmt_expr, Hw, e_ty_xe. reflexivity.
 Qed.
 
-(* block level: a function body of the fragment, accepted by type_check_block in an environment
-   that corresponds to the re-checker's, passes Wt.wt_block with the block type the checker
-   computed (same fuel) *)
 Corollary check_block_sound f : Bl f.
 Proof. apply sound_all. Qed.
 Corollary check_expr_sound f : E f.
 Proof. apply sound_all. Qed.
 
+
+(* ------------------------------------------------------------------ functions *)
+
+Lemma env_rel_let_mut g G x t m m' : (m = true -> m' = true) ->
+  env_rel g G -> env_rel (env_let g x t m) (Wt.tbind G (intern x) (xt t) m').
+Proof.
+  intros Hm H y t' m0 Hy. rewrite env_get_let in Hy. rewrite tlookup_tbind.
+  destruct (list_eqb y x) eqn:E.
+  - apply list_eqb_eq in E. subst y. rewrite N.eqb_refl. inversion Hy; subst. eauto.
+  - destruct (N.eqb_spec (intern y) (intern x)) as [Heq|Hne]; [|apply H; assumption].
+    apply intern_inj in Heq. subst y. rewrite list_eqb_refl in E. discriminate.
+Qed.
+
+Definition xparams (tps : list (bool * list N * cty)) : list (N * Ast.ty) :=
+  map (fun p => (intern (snd (fst p)), xt (snd p))) tps.
+
+Lemma params_ok : forall ps seen g tps g' G,
+  forallb (fun p => conc_uty (upa_ty p)) ps = true ->
+  (fix go (seen : list (list N)) (ps : list uparam) (g : cenv)
+     : cres (list (bool * list N * cty) * cenv) :=
+     match ps with
+     | [] => COk ([], g)
+     | p :: r =>
+         if memL (upa_name p) seen then CErr E_DuplicateFnParam else
+         do ty <- concrete_of D (upa_ty p);
+         do r2 <- go (upa_name p :: seen) r (env_let g (upa_name p) ty (upa_mut p));
+         COk ((upa_mut p, upa_name p, ty) :: fst r2, snd r2)
+     end) seen ps g = COk (tps, g') ->
+  env_ok g -> env_rel g G ->
+  env_ok g' /\ env_rel g' (Wt.tbind_all G (xparams tps) true).
+Proof.
+  induction ps as [|p ps IH]; intros seen g tps g' G Hc H Hok Hrel.
+  - inversion H; subst. cbn. auto.
+  - cbn [forallb] in Hc. apply andb_true_iff in Hc. destruct Hc as [Hc1 Hc2].
+    destruct (memL (upa_name p) seen); [discriminate|].
+    apply cbind_ok in H. destruct H as [ty [Hty H]]. apply cbind_ok in H. destruct H as [[tps2 g2] [Hgo H]].
+    cbn [fst snd] in H. inversion H; subst; clear H.
+    pose proof (as_concrete_conc _ _ _ _ Hty Hc1) as Hcty.
+    destruct (IH _ _ _ _ (Wt.tbind G (intern (upa_name p)) (xt ty) true) Hc2 Hgo) as [Hok' Hrel'].
+    { apply env_ok_let; assumption. }
+    { apply env_rel_let_mut; [reflexivity|assumption]. }
+    split; [exact Hok'|]. exact Hrel'.
+Qed.
+
+Lemma map_last_check f t : forall b b',
+  map_last_expr (fun x => check_type f x t) b = COk b' -> forallb conc_s b = true ->
+  b' = b /\ forall e0, last (map Some b) None = Some (TSExpr e0) -> ty_of e0 = t.
+Proof.
+  induction b as [|s b IH]; intros b' H Hc; [cbn in H; inversion H; split; [reflexivity|discriminate]|].
+  cbn [forallb] in Hc. apply andb_true_iff in Hc. destruct Hc as [Hc1 Hc2].
+  cbn [map_last_expr] in H. destruct b as [|s2 b].
+  - destruct s; try (inversion H; subst; split; [reflexivity|intros e0 He0; discriminate He0]).
+    apply cbind_ok in H. destruct H as [e' [Hct H]]. inversion H; subst; clear H.
+    destruct (check_type_conc _ _ _ _ Hct Hc1) as [-> Ht]. split; [reflexivity|].
+    intros e0 He0. cbn in He0. injection He0 as <-. exact Ht.
+  - assert (Hr : exists r', map_last_expr (fun x => check_type f x t) (s2 :: b) = COk r' /\ b' = s :: r').
+    { destruct s; apply cbind_ok in H; destruct H as [r' [Hr H]]; inversion H; subst; eauto. }
+    destruct Hr as [r' [Hr ->]]. destruct (IH _ Hr Hc2) as [-> Hl]. split; [reflexivity|].
+    intros e0 He0. apply Hl. exact He0.
+Qed.
+
+(* UntypedFnDef::type_check: the body of the typed function passes the re-checker in the
+   environment Wt.wt_fn builds from the parameters (no consts), with the declared return type *)
+Lemma fn_sound f fd st tfd st' F :
+  frag_fn fd = true -> check_fn intern f D st fd = COk (tfd, st') -> (f <= S F)%nat ->
+  exists t,
+    Wt.wt_block F P' ([] :: Wt.tbind_all ([] :: [[]]) (Ast.fn_params (export_fn intern en tfd)) true)
+                (Ast.fn_body (export_fn intern en tfd)) = Some t /\
+    Wt.ty_eqb t (Ast.fn_ret (export_fn intern en tfd)) = true.
+Proof.
+  intros Hfr H HF. destruct f as [|f]; [discriminate|]. apply le_S_n in HF.
+  unfold frag_fn in Hfr. apply andb_true_iff in Hfr. destruct Hfr as [Hfp Hfb].
+  cbn [Infer.check_fn] in H. refold H.
+  destruct (memL (uf_name fd) (st_checking st)); [discriminate|].
+  apply cbind_ok in H. destruct H as [[tps g1] [Hps H]]. cbn [fst snd] in H.
+  apply cbind_ok in H. destruct H as [[[body ty] st1] [Hblk H]]. cbv beta iota zeta in H.
+  apply cbind_ok in H. destruct H as [ret_ty [Hret H]]. apply cbind_ok in H. destruct H as [body' [Hlast H]].
+  inversion H; subst; clear H.
+  destruct (params_ok _ _ _ _ _ ([] :: [[]]) Hfp Hps) as [Hok1 Hrel1].
+  { intros x t m Hx. discriminate Hx. }
+  { intros x t m Hx. discriminate Hx. }
+  destruct (proj1 (proj2 (proj2 (sound_all f))) _ _ _ _ _ ([] :: Wt.tbind_all ([] :: [[]]) (xparams tps) true) F Hfb Hblk) as [Hcb Hwb].
+  { exact Hok1. }
+  { cbn [st_env]. intros x t m Hx. apply Hrel1 in Hx. cbn [Wt.tlookup Ast.assocN]. exact Hx. }
+  { exact HF. }
+  assert (Ety : ty = last_expr_ty body).
+  { destruct f as [|f0]; [discriminate|]. cbn [check_block] in Hblk. refold Hblk. inv_all. reflexivity. }
+  assert (Hb' : body' = body /\ ty = ret_ty).
+  { unfold last_expr_ty in Ety. destruct (last (map Some body) None) as [[]|] eqn:El.
+    all: try (destruct (cty_eqb ret_ty unit_cty) eqn:Eu; [|discriminate Hlast]; cbn [negb] in Hlast;
+              inversion Hlast; subst; apply cty_eqb_eq in Eu; auto).
+    destruct (map_last_check _ _ _ _ Hlast Hcb) as [-> Hl]. split; [reflexivity|]. rewrite Ety. apply Hl. exact El. }
+  destruct Hb' as [-> ->].
+  exists (xt ret_ty). cbn [export_fn Ast.fn_params Ast.fn_body Ast.fn_ret tf_params tf_body tf_ty].
+  fold (xparams tps). split; [exact Hwb|apply xt_refl].
+Qed.
+
 End Sound.
 
 Print Assumptions sound_all.
-Print Assumptions check_block_sound.
+Print Assumptions fn_sound.
+
+Ltac destr_tuples := repeat match goal with x : (_ * _)%type |- _ => destruct x end.
+Ltac inv_all' := repeat (progress (inv_all; destr_tuples; cbn [fst snd] in * )).
+
+Section TypedInvB.
+Variable intern : list N -> N.
+Variable D : defs.
+Notation check_expr := (check_expr intern).
+Notation check_stmt := (check_stmt intern).
+Notation check_stmts := (check_stmts intern).
+Notation check_block := (check_block intern).
+Notation check_fn := (check_fn intern).
+
+(* a property of the entries of `typed` that holds for whatever a successful function check
+   inserts is an invariant of the whole checker *)
+Variable Q : list N * tfndef -> Prop.
+Variable Bd : nat.
+Hypothesis Q_ins : forall f st ufd r id, (f < Bd)%nat -> Forall Q (st_typed st) ->
+  find (fun d => list_eqb (uf_name d) id) (d_fns D) = Some ufd ->
+  check_fn f D st ufd = COk r -> Q (id, fst r).
+
+Definition Rb (st st' : cstate) : Prop := Forall Q (st_typed st) -> Forall Q (st_typed st').
+
+Lemma R_reflb st : Rb st st. Proof. unfold Rb; auto. Qed.
+Lemma R_transb a b c : Rb a b -> Rb b c -> Rb a c. Proof. unfold Rb; auto. Qed.
+
+Lemma mapM_st_Rb {A B} (g : cstate -> A -> cres (B * cstate)) :
+  (forall st x r, g st x = COk r -> Rb st (snd r)) ->
+  forall l st r, mapM_st g st l = COk r -> Rb st (snd r).
+Proof.
+  intros Hg. induction l as [|x l IH]; intros st r H; cbn [mapM_st] in H; inv_all; [apply R_reflb|].
+  cbn [snd]. eapply R_transb; [eapply Hg; eauto|eapply IH; eauto].
+Qed.
+
+Lemma accs_loop_Rb ce :
+  (forall st x r, ce st x = COk r -> Rb st (snd r)) ->
+  forall accs st t r, accs_loop ce D st t accs = COk r -> Rb st (snd r).
+Proof.
+  intros Hce. induction accs as [|a accs IH]; intros st t r H; cbn [accs_loop] in H; [inv_all; apply R_reflb|].
+  apply cbind_ok in H. destruct H as [[[ta t'] st'] [H1 H2]]. cbv beta iota in H2.
+  apply cbind_ok in H2. destruct H2 as [[[tas tf] st''] [H2 H3]]. cbv beta iota in H3. inv_all. cbn [snd].
+  apply IH in H2. cbn [snd] in H2. eapply R_transb; [|exact H2]. clear H2 IH.
+  destruct a.
+  - inv_all'. match goal with H : ce _ _ = _ |- _ => apply Hce in H; exact H end.
+  - inv_all'. destruct (nthN _ _); inv_all. apply R_reflb.
+  - inv_all'. destruct (assocL _ (d_structs D)); [|discriminate]. destruct (assocL _ _); inv_all. apply R_reflb.
+Qed.
+
+Lemma struct_lit_loop_Rb ce f sd :
+  (forall st x r, ce st x = COk r -> Rb st (snd r)) ->
+  forall fields seen st r, struct_lit_loop ce f sd seen st fields = COk r -> Rb st (snd r).
+Proof.
+  intros Hce. induction fields as [|[fname fv] fields IH]; intros seen st r H; cbn [struct_lit_loop] in H; inv_all; [apply R_reflb|].
+  destruct (assocL fname sd); [|discriminate]. inv_all. cbn [snd].
+  eapply R_transb; [eapply Hce; eauto|eapply IH; eauto].
+Qed.
+
+Ltac refold H :=
+  fold (Infer.check_expr intern) (Infer.check_stmts intern) (Infer.check_block intern)
+       (Infer.check_fn intern) (Infer.check_stmt intern) in H.
+
+Ltac use_R IHe IHss IHb IHs IHf := repeat match goal with
+  | H : Infer.check_expr _ _ _ _ _ = COk _ |- _ => apply IHe in H
+  | H : Infer.check_stmts _ _ _ _ _ = COk _ |- _ => apply IHss in H
+  | H : Infer.check_block _ _ _ _ _ = COk _ |- _ => apply IHb in H
+  | H : Infer.check_fn _ _ _ _ _ = COk _ |- _ => apply IHf in H
+  | H : mapM_st (Infer.check_expr _ _ _) _ _ = COk _ |- _ => apply (mapM_st_Rb _ IHe) in H
+  | H : mapM_st (Infer.check_stmt _ _ _) _ _ = COk _ |- _ => apply (mapM_st_Rb _ IHs) in H
+  | H : accs_loop _ _ _ _ _ = COk _ |- _ => apply (accs_loop_Rb _ IHe) in H
+  | H : struct_lit_loop _ _ _ _ _ _ = COk _ |- _ => apply (struct_lit_loop_Rb _ _ _ IHe) in H
+  end.
+
+Ltac finR := unfold Rb in *; cbn [snd fst st_typed with_env] in *; eauto 12.
+
+Theorem check_typed_inv_b f : (f <= Bd)%nat ->
+  (forall st e r, check_expr f D st e = COk r -> Rb st (snd r)) /\
+  (forall st b r, check_stmts f D st b = COk r -> Rb st (snd r)) /\
+  (forall st b r, check_block f D st b = COk r -> Rb st (snd r)) /\
+  (forall st s r, check_stmt f D st s = COk r -> Rb st (snd r)) /\
+  (forall st fd r, check_fn f D st fd = COk r -> Rb st (snd r)).
+Proof.
+  induction f as [|f IH]; intro HfB.
+  { repeat split; intros; discriminate. }
+  destruct (IH ltac:(lia)) as (IHe & IHss & IHb & IHs & IHf).
+  split; [|split; [|split; [|split]]].
+  - intros st e r H. destruct e; cbn [Infer.check_expr] in H; refold H.
+    + inv_all; apply R_reflb.
+    + inv_all; apply R_reflb.
+    + inv_all; apply R_reflb.
+    + inv_all; apply R_reflb.
+    + destruct (env_get (st_env st) s) as [[? ?]|]; [inv_all; apply R_reflb|].
+      destruct (assocL s (d_consts D)); inv_all; apply R_reflb.
+    + inv_all. destruct (fst a) eqn:E; [discriminate|]. inv_all. use_R IHe IHss IHb IHs IHf. finR.
+    + inv_all. use_R IHe IHss IHb IHs IHf. finR.
+    + discriminate.
+    + inv_all. use_R IHe IHss IHb IHs IHf. finR.
+    + inv_all. use_R IHe IHss IHb IHs IHf. finR.
+    + inv_all. destruct (nthN _ _); inv_all. use_R IHe IHss IHb IHs IHf. finR.
+    + inv_all. destruct (assocL _ (d_structs D)); [|discriminate]. destruct (assocL _ _); inv_all. use_R IHe IHss IHb IHs IHf. finR.
+    + destruct (assocL name (d_structs D)); [|discriminate]. inv_all. use_R IHe IHss IHb IHs IHf. finR.
+    + destruct (assocL e (d_enums D)) as [ed|]; [|discriminate]. destruct (assocL v ed) as [[?|]|]; try discriminate;
+        destruct args; try discriminate; inv_all; use_R IHe IHss IHb IHs IHf; finR.
+    + (* match *)
+      inv_all. destruct (ty_of (fst a)) eqn:Ety; try discriminate; inv_all;
+      (destruct (fst a0) as [|[? ?] ?] eqn:E0; [discriminate|]; inv_all; cbn [snd];
+       match goal with H1 : mapM_st _ _ _ = COk ?a0 |- Rb _ (snd ?a0) =>
+         apply mapM_st_Rb in H1;
+         [use_R IHe IHss IHb IHs IHf; finR
+         |intros st0 pc r0 H0; inv_all; use_R IHe IHss IHb IHs IHf; finR] end).
+    + destruct o; inv_all; use_R IHe IHss IHb IHs IHf; finR.
+    + inv_all. destruct o; inv_all;
+        try (match goal with x : texpr * texpr * cty |- _ => destruct x as [[? ?] ?] end; inv_all);
+        try (destruct (ty_of (fst a)); try discriminate; destruct (ty_of (fst a0)); try discriminate; inv_all);
+        use_R IHe IHss IHb IHs IHf; finR.
+    + apply cbind_ok in H. destruct H as [[[body ty] st'] [H1 H]]. cbv beta iota in H. inv_all.
+      use_R IHe IHss IHb IHs IHf. finR.
+    + (* call *)
+      apply cbind_ok in H. destruct H as [st1 [H1 H]]. cbv beta in H.
+      assert (Hst1 : Rb st st1).
+      { destruct (negb _) in H1; [|inv_all; apply R_reflb].
+        destruct (find _ (d_fns D)) eqn:Ef; [|inv_all; apply R_reflb].
+        apply cbind_ok in H1. destruct H1 as [[fd1 st2] [H1 H2]]. cbv beta in H2. inv_all.
+        pose proof (fun HQ0 => Q_ins f _ _ _ _ ltac:(lia) HQ0 Ef H1) as Hq. apply IHf in H1. unfold Rb in *. cbn [snd fst st_typed] in *.
+        intro H0. constructor; auto. }
+      clear H1.
+      destruct (assocL f0 (st_typed st1)); [|discriminate].
+      destruct (env_get (st_env st1) f0); [discriminate|]. inv_all. use_R IHe IHss IHb IHs IHf. finR.
+    + discriminate.
+    + inv_all. destruct a3 as [[? ?] ?]. inv_all. use_R IHe IHss IHb IHs IHf. finR.
+    + inv_all. use_R IHe IHss IHb IHs IHf. finR.
+    + inv_all. apply R_reflb.
+  - intros st b r H. cbn [Infer.check_stmts] in H. refold H. use_R IHe IHss IHb IHs IHf. exact H.
+  - intros st b r H. cbn [Infer.check_block] in H. refold H. inv_all. use_R IHe IHss IHb IHs IHf. finR.
+  - intros st s r H. destruct s; cbn [Infer.check_stmt] in H; refold H.
+    + inv_all. use_R IHe IHss IHb IHs IHf. finR.
+    + inv_all. use_R IHe IHss IHb IHs IHf. finR.
+    + destruct (env_get (st_env st) x) as [[t [|]]|]; try discriminate.
+      apply cbind_ok in H. destruct H as [[[tas t'] st1] [H1 H]]. cbv beta iota in H. inv_all.
+      use_R IHe IHss IHb IHs IHf. finR.
+    + inv_all. use_R IHe IHss IHb IHs IHf. finR.
+    + inv_all. use_R IHe IHss IHb IHs IHf. finR.
+  - intros st fd r H. cbn [Infer.check_fn] in H. refold H. inv_all.
+    destruct a0 as [[body ?] st1]. inv_all. use_R IHe IHss IHb IHs IHf. finR.
+Qed.
+
+End TypedInvB.
+
+(* ================================================================== whole programs *)
+
+(* THE BOOLEAN FRAGMENT TEST (over the untyped program): no consts / structs / enums; every
+   function has parameters of concrete types and a body made of the constructs of [frag_s]
+   (no calls yet): all numbers suffixed and in the range of their suffix. *)
+Definition in_sound_fragment (P : uprogram) : bool :=
+  match up_consts P, up_structs P, up_enums P with
+  | [], [], [] => forallb frag_fn (up_fns P)
+  | _, _, _ => false
+  end.
+
+Section Program.
+Variable intern : list N -> N.
+Hypothesis intern_inj : forall a b, intern a = intern b -> a = b.
+
+Lemma Forall_filter' {A} (Q : A -> Prop) p l : Forall Q l -> Forall Q (filter p l).
+Proof. rewrite !Forall_forall. intros H x Hx. apply filter_In in Hx. apply H, Hx. Qed.
+
+Lemma In_insert_field {A} (x f : list N * A) l : In x (insert_field f l) -> x = f \/ In x l.
+Proof.
+  induction l as [|g r IH]; cbn [insert_field]; [intros [<-|[]]; auto|].
+  destruct (name_ltb (fst f) (fst g)); [intros [<-|H]; auto|].
+  intros [<-|H]; [right; left; reflexivity|]. destruct (IH H); [auto|right; right; assumption].
+Qed.
+
+Lemma In_sort_fields {A} (x : list N * A) l : In x (sort_fields l) -> In x l.
+Proof.
+  unfold sort_fields.
+  assert (H : forall l acc, In x (fold_left (fun acc f => insert_field f acc) l acc) -> In x acc \/ In x l).
+  { induction l0 as [|f r IH]; intros acc Hx; [auto|]. cbn [fold_left] in Hx.
+    destruct (IH _ Hx) as [Hi|Hi]; [destruct (In_insert_field _ _ _ Hi) as [->|]; [right; left; reflexivity|auto]|right; right; assumption]. }
+  intro Hx. destruct (H _ _ Hx) as [[]|]; assumption.
+Qed.
+
+(* the entries of `typed`: the exported function passes Wt.wt_fn (no consts) for every program *)
+Definition Qwt (nd : list N * tfndef) : Prop :=
+  forall P' : Ast.program,
+  exists t,
+    Wt.wt_block Wt.wt_fuel P' ([] :: Wt.tbind_all ([] :: [[]]) (Ast.fn_params (export_fn intern [] (snd nd))) true)
+                (Ast.fn_body (export_fn intern [] (snd nd))) = Some t /\
+    Wt.ty_eqb t (Ast.fn_ret (export_fn intern [] (snd nd))) = true.
+
+Theorem check_sound_fragment fuel P P' :
+  in_sound_fragment P = true -> (fuel <= S Wt.wt_fuel)%nat ->
+  check_program intern fuel P = COk P' -> Wt.wt_program P' = true.
+Proof.
+  intros Hfrag Hfuel H. unfold in_sound_fragment in Hfrag.
+  destruct (up_consts P) eqn:Ec; [|discriminate]. destruct (up_structs P) eqn:Es; [|destruct (up_enums P); discriminate].
+  destruct (up_enums P) eqn:Ee; [|discriminate].
+  unfold check_program in H. apply cbind_ok in H. destruct H as [T [HT H]]. inversion H; subst; clear H.
+  unfold check_program_t in HT. rewrite Ec, Es, Ee in HT. cbn [check_consts rev mapM cbind map app] in HT.
+  cbv zeta in HT.
+  match type of HT with context [check_fn intern fuel ?D0] => set (D := D0) in * end.
+  apply cbind_ok in HT. destruct HT as [stf [Hloop HT]].
+  match type of HT with (if ?c then _ else _) = _ => destruct c; [discriminate|] end.
+  inversion HT; subst; clear HT.
+  assert (HQins : forall f st ufd r id, (f < S (S Wt.wt_fuel))%nat -> Forall Qwt (st_typed st) ->
+            find (fun d => list_eqb (uf_name d) id) (d_fns D) = Some ufd ->
+            check_fn intern f D st ufd = COk r -> Qwt (id, fst r)).
+  { intros f st ufd [tfd st'] id Hf _ Hfind Hc P'. cbn [fst snd].
+    apply find_some in Hfind. destruct Hfind as [Hin _]. cbn [D d_fns] in Hin.
+    rewrite forallb_forall in Hfrag.
+    eapply (fn_sound intern intern_inj [] P' D eq_refl f ufd st tfd st' Wt.wt_fuel); [apply Hfrag; exact Hin|exact Hc|lia]. }
+  assert (HQ : Forall Qwt (st_typed stf)).
+  { clear - Hloop HQins Hfuel Hfrag intern_inj.
+    assert (Hgen : forall fns st st', (forall fd, In fd fns -> In fd (up_fns P)) ->
+       (fix go (fns : list ufndef) (st : cstate) : cres cstate :=
+          match fns with
+          | [] => COk st
+          | fd :: r =>
+              if uf_pub fd then
+                match uf_params fd with
+                | [] => CErr E_PubFnWithoutParams
+                | _ =>
+                    do r1 <- check_fn intern fuel D st fd;
+                    go r (mkSt (st_env (snd r1))
+                               ((uf_name fd, fst r1) ::
+                                filter (fun nd => negb (list_eqb (fst nd) (uf_name fd))) (st_typed (snd r1)))
+                               (st_checking (snd r1)))
+                end
+              else go r st
+          end) fns st = COk st' -> Forall Qwt (st_typed st) -> Forall Qwt (st_typed st')).
+    { induction fns as [|fd fns IH]; intros st st' Hsub H HQ.
+      - inversion H; subst. exact HQ.
+      - destruct (uf_pub fd).
+        + destruct (uf_params fd); [discriminate|].
+          apply cbind_ok in H. destruct H as [[tfd st1] [H1 H2]]. cbn [fst snd] in H2.
+          apply IH in H2; [exact H2|intros; apply Hsub; right; assumption|].
+          cbn [st_typed]. constructor.
+          * intro P'. cbn [snd]. rewrite forallb_forall in Hfrag.
+            eapply (fn_sound intern intern_inj [] P' D eq_refl fuel fd st tfd st1 Wt.wt_fuel);
+              [apply Hfrag; apply Hsub; left; reflexivity|exact H1|exact Hfuel].
+          * apply Forall_filter'.
+            exact (proj2 (proj2 (proj2 (proj2 (check_typed_inv_b intern D Qwt (S (S Wt.wt_fuel)) HQins fuel ltac:(lia))))) _ _ _ H1 HQ).
+        + apply IH in H; [exact H|intros; apply Hsub; right; assumption|exact HQ]. }
+    eapply Hgen; [|exact Hloop|constructor]. auto. }
+  (* the exported program *)
+  unfold Wt.wt_program, export_program. cbn [Ast.p_consts Ast.p_fns tp_consts tp_fns tp_enums map forallb andb].
+  apply forallb_forall. intros d Hd. apply in_map_iff in Hd. destruct Hd as [nd [<- Hnd]].
+  apply In_sort_fields in Hnd. rewrite Forall_forall in HQ. specialize (HQ _ Hnd).
+  unfold Wt.wt_fn.
+  match goal with |- context [Wt.wt_block Wt.wt_fuel ?PP _ _] => destruct (HQ PP) as [t [Hw Ht]] end.
+  change (Wt.consts_tenv _) with ([[]] : Wt.tenv). rewrite Hw. exact Ht.
+Qed.
+
+End Program.
+
+Print Assumptions check_sound_fragment.
